@@ -51,6 +51,11 @@ def _ev(S, F, x, asg, tabs):
     """Value of raw expression x when src[i] = asg['src'][i] and len(src) = asg['len'] (integers are exact: every IntToInt cast
     and every shift/add is reduced to the width of its MIR type)."""
     k = x[0]
+    sub = asg.get("subst")
+    if sub:
+        nx = n(x)
+        if nx in sub:
+            return sub[nx]
     if k == "const":
         return x[1]
     if k == "cpath":
@@ -83,6 +88,10 @@ def _ev(S, F, x, asg, tabs):
             return int({"Eq": a == b, "Ne": a != b, "Lt": a < b, "Le": a <= b, "Gt": a > b, "Ge": a >= b}[op])
         if op in ("BitOr", "BitAnd", "BitXor", "Shr"):
             return {"BitOr": a | b, "BitAnd": a & b, "BitXor": a ^ b, "Shr": a >> b}[op]
+        if op in ("Div", "Rem"):
+            if b == 0:
+                raise _Unknown("division by zero in %s" % sym.fmt(n(x)))
+            return a // b if op == "Div" else a % b
         t = S.type_of(x)
         w = WIDTHS.get(t["s"]) if t else None
         if w is None:
@@ -110,6 +119,12 @@ def _ev(S, F, x, asg, tabs):
             return asg["len"]
         if path == H + "decode_digit" and len(args) == 1:
             return _ref_digit(_ev(S, F, args[0], asg, tabs))
+        if path.endswith("bits::swap_nibble_in_u8") and len(args) == 1:
+            v = _ev(S, F, args[0], asg, tabs)  # verified separately to be rotate_left(4)
+            return ((v << 4) | (v >> 4)) & 0xFF
+        if path == "core::num::<impl u8>::rotate_left" and len(args) == 2:
+            v, k2 = _ev(S, F, args[0], asg, tabs), _ev(S, F, args[1], asg, tabs) % 8
+            return ((v << k2) | (v >> (8 - k2))) & 0xFF
         raise _Unknown("call %s" % path)
     if k == "agg":
         if x[1].endswith("Option::Some"):
@@ -254,7 +269,85 @@ def decode_digit(ctx, r, F):
            cfg=F.key, where=b.where())
 
 
+UPPER = b"0123456789ABCDEF"
+
+
+def _pair_tables(F):
+    """tables of [u8; 2] entries, as lists of byte pairs"""
+    out = {}
+    for nm in ("HEX_UPPER_BYTE_TABLE", "HEX_UPPER_BYTE_REV_TABLE"):
+        bts = F.const_bytes(H + nm)
+        if bts is not None and len(bts) == 512:
+            out[H + nm] = [(bts[2 * i], bts[2 * i + 1]) for i in range(256)]
+    return out
+
+
+def digit_pair(S, F, p, val, dst, reverse, tabs):
+    """What the two bytes at `dst` become on path p as a function of the byte `val` (normalised expression), evaluated for all
+    256 values and compared with the reference digits (upper case; low nibble first iff reverse).  Returns None if correct,
+    else a description."""
+    pairs = _pair_tables(F)
+    copies = [(c[2][0], c[2][1]) for c in p.calls if c[1] == "core::slice::<impl [T]>::copy_from_slice"]
+    stores = [(pl, v) for _, pl, v in p.stores]
+    from . import layout
+    writes = []  # (offset, kind, raw source)
+    for d_, src_ in copies:
+        w = layout.window(n(d_), dst)
+        if w is None:
+            return "copy_from_slice into %s" % sym.fmt(n(d_))
+        lo = w[0][1] if w[0][0] == "const" else None
+        hi = None if w[1] is None else (w[1][1] if w[1][0] == "const" else "?")
+        if lo != 0 or hi not in (None, 2):
+            return "copy_from_slice into window %s..%s of the destination pair" % (lo, hi)
+        writes.append(("pair", src_))
+    for pl, v in stores:
+        npl = n(pl)
+        m = match(("index", ("deref", V("b")), ("const", V("i"))), npl)
+        if m and (m["b"] == dst or ("deref", m["b"]) == dst or m["b"] == ("deref", dst)) and m["i"] in (0, 1):
+            writes.append((m["i"], v))
+        elif find_all(npl, lambda y: y == dst):
+            return "store to %s" % sym.fmt(npl)
+    kinds = sorted(str(w[0]) for w in writes)
+    if kinds not in (["pair"], ["0", "1"]):
+        return "writes %s; reference one 2-byte copy or stores to [0] and [1]" % kinds
+    for v in range(256):
+        asg = {"subst": {val: v}, "src": {}, "len": 2}
+        got = [None, None]
+        try:
+            for w in writes:
+                if w[0] == "pair":
+                    src_ = w[1]
+                    e = src_
+                    while e[0] in ("ref", "cast"):
+                        e = e[-1]
+                    if e[0] == "index" and e[1][0] == "table" and e[1][1] in pairs:
+                        i = _ev(S, F, e[2], asg, tabs)
+                        if not isinstance(i, int) or not (0 <= i < 256):
+                            return "table index %s for value %d" % (i, v)
+                        got = list(pairs[e[1][1]][i])
+                    else:
+                        return "copy source %s" % sym.fmt(n(src_))[:80]
+                else:
+                    got[w[0]] = _ev(S, F, w[1], asg, tabs)
+        except _Unknown as ex:
+            return "cannot evaluate: %s" % ex
+        lo_d, hi_d = UPPER[v & 15], UPPER[v >> 4]
+        want = [lo_d, hi_d] if reverse else [hi_d, lo_d]
+        if got != want:
+            return "byte 0x%02x is written as %r; reference %r" % (v, bytes(x if isinstance(x, int) else 63 for x in got), bytes(want))
+    return None
+
+
 def encoders(ctx, r, F):
+    from .c17 import table_values
+    cache = {}
+    WIDTHS["usize"] = F.usize_bytes * 8
+
+    def tabs(path):
+        if path not in cache:
+            cache[path] = table_values(F, path)
+        return cache[path]
+
     feats = F.features
     half = "opt-low-memory-hex-str-encode-half-table" in feats
     mini = "opt-low-memory-hex-str-encode-min-table" in feats
@@ -278,21 +371,12 @@ def encoders(ctx, r, F):
     if b is None:
         ctx.missing(r, H + "encode_rev_1", cfg=F.key)
     else:
-        ps = [p for p in sym.Sym(b).paths() if p.end == "return"]
-        ok = False
-        desc = None
+        S1 = sym.Sym(b)
+        ps = [p for p in S1.paths() if p.end == "return"]
+        desc = "%d returning paths" % len(ps)
         if len(ps) == 1:
-            w = rev_src(P(2))
-            p = ps[0]
-            copies = [(n(c[2][0]), n(c[2][1])) for c in p.calls if c[1] == "core::slice::<impl [T]>::copy_from_slice"]
-            stores = [(n(pl), n(v)) for _, pl, v in p.stores]
-            desc = "copies %s stores %s" % ([(sym.fmt(a), sym.fmt(c)) for a, c in copies], [(sym.fmt(a), sym.fmt(c)) for a, c in stores])
-            if w[0] == "copy":
-                dst = ("call", "core::slice::index::<impl core::ops::IndexMut<I> for [T]>::index_mut", (P(1), ("agg", "adt:core::ops::Range::Range", (C(0), C(2)))))
-                ok = copies == [(dst, w[1])] and not stores
-            else:
-                ok = not copies and stores == [(("index", ("deref", P(1)), C(0)), w[1]), (("index", ("deref", P(1)), C(1)), w[2])]
-        ctx.ob(r, ("encode_rev_1", "shape"), ok, "encode_rev_1 is %s; reference: low nibble digit first, then high nibble digit" % desc, cfg=F.key, where=b.where())
+            desc = digit_pair(S1, F, ps[0], P(2), P(1), True, tabs)
+        ctx.ob(r, ("encode_rev_1", "shape"), desc is None, "encode_rev_1: %s; reference: the two upper-case hex digits of the byte, low nibble digit first (evaluated for all 256 byte values)" % desc, cfg=F.key, where=b.where())
     if half and not mini:
         sb = F.fn(SWAP)
         ctx.instance(r)
@@ -325,14 +409,9 @@ def encoders(ctx, r, F):
                 item = ("field", ("variant", nxt[0], "Some"), 0) if nxt else None
                 chunk = ("field", item, 0)
                 val = ("load", ("deref", ("field", item, 1)))
-                w = mk(val)
-                copies = [(n(c[2][0]), n(c[2][1])) for c in p.calls if c[1] == "core::slice::<impl [T]>::copy_from_slice"]
-                stores = [(n(pl), n(v)) for _, pl, v in p.stores]
-                desc = "copies %s stores %s" % ([(sym.fmt(a), sym.fmt(c)) for a, c in copies], [(sym.fmt(a), sym.fmt(c)) for a, c in stores])
-                if w[0] == "copy":
-                    ok = copies == [(chunk, w[1])] and not stores
-                else:
-                    ok = not copies and stores == [(("index", ("deref", chunk), C(0)), w[1]), (("index", ("deref", chunk), C(1)), w[2])]
+                why = digit_pair(sym.Sym(b), F, p, val, chunk, nm == "encode_rev_array", tabs)
+                desc = why or "digit pair ok"
+                ok = why is None
                 # direction: no rev() on either side
                 ok = ok and [n(a) for a in pre.calls[0][2]] == [P(1), C(2)] and [n(a) for a in pre.calls[1][2]] in ([P(2)], [("deref", P(2))])
         ctx.ob(r, (nm, "shape"), ok, "%s loop is %s; reference dst.chunks_exact_mut(2).zip(src.iter()) writing this configuration's digit pair" % (nm, desc), cfg=F.key, where=b.where())
